@@ -453,7 +453,7 @@ impl Simulation {
             final(self).model_names@ == old(self).model_names@,
             final(self).observers@ == old(self).observers@,
             final(self).clock_tolerance == old(self).clock_tolerance,
-            is_fatal(r), !(r is Terminated), !(r is OutOfSync),
+            is_fatal(r), !(r is Terminated), !(r is OutOfSync),                                 //@ C11 #maps-to-fatal
             // C11: classification of executor failures
             e matches ExecutorError::Timeout ==> r is Timeout,                                  //@ C11 #timeout-maps
             e matches ExecutorError::Panic(id, p) ==> (                                         //@ C11 #panic-maps
@@ -485,7 +485,7 @@ impl Simulation {
                         //@[
                         invariant
                             obs == self.observers@,
-                            info_view(deadlock_info@) == deadlock_list(obs.subrange(0, it.index@ as int)),
+                            info_view(deadlock_info@) == deadlock_list(obs.subrange(0, it.index@ as int)),   //@ C06 #deadlock-list-so-far
                         //@]
                     {
                         let mailbox_size = observer.len();
@@ -502,7 +502,7 @@ impl Simulation {
                             });
                             //@[
                             proof {
-                                assert(info_view(deadlock_info@) =~= info_view(old_info).push((model@, mailbox_size)));
+                                assert(info_view(deadlock_info@) =~= info_view(old_info).push((model@, mailbox_size)));   //@ C06
                             }
                             //@]
                         }
@@ -549,7 +549,7 @@ impl Simulation {
 }
 
 impl Simulation {
-//@item src=nexosim/src/simulation.rs kind=fn name=step_to_next_bounded within=`impl Simulation` rules=GUARDTY,REFPAT,REFUSE,CLOSURE,BREAKVAL,LOCK,UNLOCK,GUARDUSE,EXECMUT,LAGCMP,ARMBRACE,RET,RETACTION,RETKEY canary=1
+//@item src=nexosim/src/simulation.rs kind=fn name=step_to_next_bounded within=`impl Simulation` rules=GUARDTY,REFPAT,REFUSE,CLOSURE,BREAKVAL,LOCK,UNLOCK,GUARDUSE,EXECMUT,LAGCMP,ARMBRACE,RET,RETACTION,RETKEY
     fn step_to_next_bounded(
         &mut self,
         upper_time_bound: MonotonicTime,
@@ -558,7 +558,11 @@ impl Simulation {
         requires
             old(self).wf(),
         ensures
-            final(self).wf(),                                                                   //@ #wf-preserved
+            sorted(final(self).scheduler_queue.view()),                                             //@ #queue-sorted
+            all_later(final(self).scheduler_queue.view(), final(self).time.val()),                  //@ C01 #pending-strictly-later
+            no_zero_period(final(self).scheduler_queue.view()),                                     //@ C08 #no-zero-period
+            final(self).clock.syncs().len() > 0 && final(self).clock.syncs().last() == final(self).time.val(),   //@ C18 #synced-on-current-time
+            final(self).executor.n_models() == final(self).model_names@.len(),                      //@ C11 #model-ids-valid
             final(self).time.val() >= old(self).time.val(),                                     //@ C01 #time-monotone
             final(self).clock_tolerance == old(self).clock_tolerance,
             final(self).model_names@ == old(self).model_names@, final(self).observers@ == old(self).observers@,
@@ -597,7 +601,7 @@ impl Simulation {
                 no_zero_period(old(scheduler_queue).view()),
             ensures
                 sorted(final(scheduler_queue).view()),
-                no_zero_period(final(scheduler_queue).view()),
+                no_zero_period(final(scheduler_queue).view()),                                    //@ C08,C10
                 action.aid() == old(scheduler_queue).view()[0].aid,
                 action.cancelled() == old(scheduler_queue).view()[0].cancelled,
                 pull_rel(old(scheduler_queue).view(), final(scheduler_queue).view()),             //@ C10,C08,C01 #pull-reinserts-periodic-at-t-plus-p
@@ -624,12 +628,12 @@ impl Simulation {
                         && #[trigger] scheduler_queue.view() == q1.insert(p, e)
                         && (forall|i: int| 0 <= i < p ==> key_le(#[trigger] q1[i], e))
                         && (forall|i: int| p <= i < q1.len() ==> !key_le(#[trigger] q1[i], e));
-                    assert(is_reins(q0[0], e));
-                    assert forall|i: int| 0 <= i < scheduler_queue.view().len() implies (#[trigger] scheduler_queue.view()[i]).period != Some(0nat) by {
-                        if i < p { assert(scheduler_queue.view()[i] == q1[i]); }
-                        else if i == p { }
-                        else { assert(scheduler_queue.view()[i] == q1[i - 1]); }
-                    }
+                    assert(is_reins(q0[0], e));                                                   //@ C10,C08,C01 #reinserted-at-t-plus-period
+                    assert forall|i: int| 0 <= i < scheduler_queue.view().len() implies (#[trigger] scheduler_queue.view()[i]).period != Some(0nat) by {   //@ C08,C10
+                        if i < p { assert(scheduler_queue.view()[i] == q1[i]); }                   //@ C08,C10
+                        else if i == p { }                                                       //@ C08,C10
+                        else { assert(scheduler_queue.view()[i] == q1[i - 1]); }                  //@ C08,C10
+                    }                                                                            //@ C08,C10
                 }
                 //@]
             }
@@ -646,7 +650,7 @@ impl Simulation {
                 r matches Some(k) ==> final(scheduler_queue).view().len() > 0 && final(scheduler_queue).view()[0].time == k.0.t
                     && final(scheduler_queue).view()[0].origin == k.1 && !final(scheduler_queue).view()[0].cancelled
                     && k.0.t <= upper_time_bound.t,                                                                          //@ C09,C01 #next-key-is-live-head
-                r is None ==> final(scheduler_queue).view().len() == 0 || final(scheduler_queue).view()[0].time > upper_time_bound.t,   //@ C01 #none-means-nothing-due
+                r is None ==> final(scheduler_queue).view().len() == 0 || final(scheduler_queue).view()[0].time > upper_time_bound.t,   //@ C01,C08 #none-means-nothing-due
             //@]
         {
             //@[
@@ -659,13 +663,13 @@ impl Simulation {
                 //@[
                 invariant
                     q0 == old(scheduler_queue).view(),
-                    peek_rel(q0, scheduler_queue.view(), upper_time_bound.t, n),
+                    peek_rel(q0, scheduler_queue.view(), upper_time_bound.t, n),                  //@ C09,C01 #discards-only-cancelled-heads
                 ensures
-                    peek_rel(q0, scheduler_queue.view(), upper_time_bound.t, n),
+                    peek_rel(q0, scheduler_queue.view(), upper_time_bound.t, n),                  //@ C09,C01 #discards-only-cancelled-heads
                     __brk matches Some(k) ==> scheduler_queue.view().len() > 0 && scheduler_queue.view()[0].time == k.0.t
                         && scheduler_queue.view()[0].origin == k.1 && !scheduler_queue.view()[0].cancelled
-                        && k.0.t <= upper_time_bound.t,
-                    __brk is None ==> scheduler_queue.view().len() == 0 || scheduler_queue.view()[0].time > upper_time_bound.t,
+                        && k.0.t <= upper_time_bound.t,                                           //@ C09,C01 #next-key-is-live-head
+                    __brk is None ==> scheduler_queue.view().len() == 0 || scheduler_queue.view()[0].time > upper_time_bound.t,   //@ C01,C08 #none-means-nothing-due
                 decreases scheduler_queue.view().len(),                                          //@ C08 #peek-terminates
                 //@]
             {
@@ -771,8 +775,9 @@ impl Simulation {
                 live_aids(q0.subrange(0, nle(q0, t) as int)) == live_aids(qa.subrange(0, kk)),
                 sorted(qa), kk == nle(qa, t),
                 forall|i: int| 0 <= i < kk ==> (#[trigger] qa[i]).time == t,
-                self.time.val() == t,
-                self.clock.syncs() == syncs0, self.is_terminated == term0, !term0,                //@ C18
+                self.time.val() == t,                                                             //@ C01,C18 #time-is-the-deadline-being-executed
+                self.clock.syncs() == syncs0,                                                     //@ C18
+                self.is_terminated == term0, !term0,                                              //@ C11
                 self.clock_tolerance == old(self).clock_tolerance,
                 self.model_names@ == old(self).model_names@, self.observers@ == old(self).observers@,
                 self.executor.n_models() == old(self).executor.n_models(),
@@ -1011,7 +1016,11 @@ impl Simulation {
             old(self).wf(),
             target_time.t >= old(self).time.val(),
         ensures
-            final(self).wf(),                                                                   //@ #wf-preserved
+            sorted(final(self).scheduler_queue.view()),                                             //@ #queue-sorted
+            all_later(final(self).scheduler_queue.view(), final(self).time.val()),                  //@ C01 #pending-strictly-later
+            no_zero_period(final(self).scheduler_queue.view()),                                     //@ C08 #no-zero-period
+            final(self).clock.syncs().len() > 0 && final(self).clock.syncs().last() == final(self).time.val(),   //@ C18 #synced-on-current-time
+            final(self).executor.n_models() == final(self).model_names@.len(),                      //@ C11 #model-ids-valid
             final(self).time.val() >= old(self).time.val(),                                     //@ C01 #time-monotone
             // C01: on success the time equals the target and nothing due up to it is left (wf: all pending are later)
             res is Ok ==> final(self).time.val() == target_time.t,                              //@ C01 #reaches-target
@@ -1027,7 +1036,11 @@ impl Simulation {
         loop
             //@[
             invariant
-                self.wf(),
+                sorted(self.scheduler_queue.view()),
+                all_later(self.scheduler_queue.view(), self.time.val()),                            //@ C01
+                no_zero_period(self.scheduler_queue.view()),                                        //@ C08
+                self.clock.syncs().len() > 0 && self.clock.syncs().last() == self.time.val(),       //@ C18
+                self.executor.n_models() == self.model_names@.len(),                                //@ C11
                 target_time.t >= self.time.val(),
                 self.time.val() >= old(self).time.val(),
                 self.is_terminated == old(self).is_terminated,
@@ -1067,7 +1080,11 @@ impl Simulation {
         requires
             old(self).wf(),
         ensures
-            final(self).wf(),                                                                   //@ #wf-preserved
+            sorted(final(self).scheduler_queue.view()),                                             //@ #queue-sorted
+            all_later(final(self).scheduler_queue.view(), final(self).time.val()),                  //@ C01 #pending-strictly-later
+            no_zero_period(final(self).scheduler_queue.view()),                                     //@ C08 #no-zero-period
+            final(self).clock.syncs().len() > 0 && final(self).clock.syncs().last() == final(self).time.val(),   //@ C18 #synced-on-current-time
+            final(self).executor.n_models() == final(self).model_names@.len(),                      //@ C11 #model-ids-valid
             final(self).time.val() >= old(self).time.val(),                                     //@ C01 #time-monotone
             // C01: step() advances to the earliest pending live deadline and runs everything due then,
             // or leaves the time unchanged when nothing is pending
@@ -1092,7 +1109,11 @@ impl Simulation {
         requires
             old(self).wf(),
         ensures
-            final(self).wf(),                                                                   //@ #wf-preserved
+            sorted(final(self).scheduler_queue.view()),                                             //@ #queue-sorted
+            all_later(final(self).scheduler_queue.view(), final(self).time.val()),                  //@ C01 #pending-strictly-later
+            no_zero_period(final(self).scheduler_queue.view()),                                     //@ C08 #no-zero-period
+            final(self).clock.syncs().len() > 0 && final(self).clock.syncs().last() == final(self).time.val(),   //@ C18 #synced-on-current-time
+            final(self).executor.n_models() == final(self).model_names@.len(),                      //@ C11 #model-ids-valid
             final(self).time.val() >= old(self).time.val(),                                     //@ C01 #time-monotone
             res is Ok ==> final(self).time.val() == deadline.into_time_spec(MonotonicTime { t: old(self).time.val() }).t,   //@ C01 #reaches-target
             res is Ok ==> final(self).clock.syncs().last() == final(self).time.val(),            //@ C18 #sync-on-target
@@ -1117,13 +1138,17 @@ impl Simulation {
     }
 //@end
 
-//@item src=nexosim/src/simulation.rs kind=fn name=process within=`impl Simulation` rules=RET,EXECMUT
+//@item src=nexosim/src/simulation.rs kind=fn name=process within=`impl Simulation` rules=RET,EXECMUT canary=1
     pub fn process(&mut self, action: Action) -> (res: Result<(), ExecutionError>)
         //@[
         requires
             old(self).wf(),
         ensures
-            final(self).wf(),                                                                   //@ #wf-preserved
+            sorted(final(self).scheduler_queue.view()),                                             //@ #queue-sorted
+            all_later(final(self).scheduler_queue.view(), final(self).time.val()),                  //@ C01 #pending-strictly-later
+            no_zero_period(final(self).scheduler_queue.view()),                                     //@ C08 #no-zero-period
+            final(self).clock.syncs().len() > 0 && final(self).clock.syncs().last() == final(self).time.val(),   //@ C18 #synced-on-current-time
+            final(self).executor.n_models() == final(self).model_names@.len(),                      //@ C11 #model-ids-valid
             final(self).time.val() == old(self).time.val(),                                     //@ C01,C11 #process-keeps-time
             final(self).scheduler_queue.view() == old(self).scheduler_queue.view(),
             final(self).clock.syncs() == old(self).clock.syncs(),                               //@ C18 #process-no-sync
